@@ -21,7 +21,15 @@ import (
 	"time"
 )
 
-const VerifDir = "/verif"
+// VerifDir is the root of the verification tree (evidence, replays, corpus,
+// known findings); check.sh exports VERIF_DIR as its own directory so that a
+// snapshot of /verif (vp run) works on itself.
+var VerifDir = func() string {
+	if d := os.Getenv("VERIF_DIR"); d != "" {
+		return d
+	}
+	return "/verif"
+}()
 
 // Acc accumulates what one worker covered.
 type Acc struct {
